@@ -494,6 +494,7 @@ package gomatrixserverlib
 //@   ensures member-needs-authorising-user: (err == nil && eventType == "m.room.member") ==> (content.AuthorizedVia != "" ==> inStrs(result.Member, content.AuthorizedVia))
 //@   ensures alias-needs: eventType == "m.room.aliases" ==> result.Create
 //@   ensures other-needs: (eventType != "m.room.create" && eventType != "m.room.aliases" && eventType != "m.room.member") ==> (result.Create && result.PowerLevels && inStrs(result.Member, string(sender)))
+//@   ensures lists-are-kept-or-newly-allocated: (result.Member == old(result.Member) || fresh(result.Member)) && (result.ThirdPartyInvite == old(result.ThirdPartyInvite) || fresh(result.ThirdPartyInvite))
 //@   ensures monotone: (old(result.Create) ==> result.Create) && (old(result.PowerLevels) ==> result.PowerLevels) && (old(result.JoinRules) ==> result.JoinRules) && (forall s string :: inStrs(old(result.Member), s) ==> inStrs(result.Member, s)) && (forall s string :: inStrs(old(result.ThirdPartyInvite), s) ==> inStrs(result.ThirdPartyInvite, s))
 //@   assigns *result
 
@@ -2651,7 +2652,15 @@ package gomatrixserverlib
 // writes nothing the caller can see. ASSUMED (by inspection), used as a frame by authAndApplyEvents; what the
 // result contains is accumulateStateNeeded's verified contract per event.
 //@ func StateNeededForAuth
-//@   trusted
+//@   property C09
+//@   nosafety
+//@   requires forall j int :: 0 <= j && j < len(events) ==> events[j] != nil
+//@   ensures ordinary-events-need-create-and-power-levels: forall j int :: (0 <= j && j < len(events) && events[j].Type() != "m.room.create" && events[j].Type() != "m.room.aliases" && events[j].Type() != "m.room.member") ==> (result.Create && result.PowerLevels)
+//@   ensures alias-events-need-create: forall j int :: (0 <= j && j < len(events) && events[j].Type() == "m.room.aliases") ==> result.Create
+//@   loop 1: invariant 0 <= idx(1) && idx(1) <= len(events)
+//@   loop 1: invariant forall j int :: (0 <= j && j < idx(1) && events[j].Type() != "m.room.create" && events[j].Type() != "m.room.aliases" && events[j].Type() != "m.room.member") ==> (result.Create && result.PowerLevels)
+//@   loop 1: invariant forall j int :: (0 <= j && j < idx(1) && events[j].Type() == "m.room.aliases") ==> result.Create
+//@   loop 1: invariant (result.Member == nil || fresh(result.Member)) && (result.ThirdPartyInvite == nil || fresh(result.ThirdPartyInvite))
 //@   assigns nothing
 
 // AuthEventReferences (what EventBuilder.AddAuthEvents and PerformInvite put under auth_events): every needed event
